@@ -4,12 +4,14 @@
    over the IR, without the `SignalUse` bookkeeping, the hash sets or the
    cached variable-use sets of the implementation.
 
-   "Mentions" follows the reading fixed in DESIGN 5.3: a use of a variable
-   declared as a signal or as a component, with the same name and a
-   syntactically equal access (the Rust `==` on `VariableName` and
-   `Vec<AccessType>`, mirrored by vname_eqb / accs_eqb).  An `Update` node (the
-   right-hand side the lifter builds for `v[acc] <== e`) uses `v` itself with
-   the empty access, as the code does. *)
+   "Mentions" (fourth audit; the old reading "same name and syntactically equal
+   access" is withdrawn): a use of a variable declared as a signal or as a
+   component, with the same name and an access that is PREFIX-COMPATIBLE with the
+   access of the assigned signal (component-wise the Rust `==`, mirrored by
+   vname_eqb / accs_compat).  An `Update` node (the right-hand side the lifter
+   builds for `v[acc] <== e`) reads `v` itself with the empty access (occ_update);
+   a constraint assignment is therefore matched through its target, not through
+   that read (update_mentions). *)
 From Coq Require Import ZArith NArith List Bool.
 Require Import Model.Base Model.Ir Model.SignalAssign.
 Import ListNotations.
@@ -83,21 +85,41 @@ Inductive occurs (ds : list (vname * vtype)) : expr -> vname -> list (access exp
 | occ_update_idx : forall w acc r k x v a, In (AIdx x) acc -> occurs ds x v a -> occurs ds (EUpdate w acc r k) v a
 | occ_update_rhe : forall w acc r k v a, occurs ds r v a -> occurs ds (EUpdate w acc r k) v a.
 
-(* the use (v', acc') is a use of the signal (v, acc) *)
+(* the use (v', acc') is a use of the signal (v, acc): same name, and one access
+   is a prefix of the other (fourth audit, /repo 4f017e8: `q[1] <-- ..` is mentioned
+   by `q[1][0] === x` and by `q === ..`; equal accesses are the special case) *)
 Definition same_use (v : vname) (acc : list (access expr)) (v' : vname) (acc' : list (access expr)) : Prop :=
-  vname_eqb v' v = true /\ accs_eqb acc' acc = true.
+  vname_eqb v' v = true /\ accs_compat acc' acc = true.
 
 Definition expr_mentions ds (e : expr) (v : vname) (acc : list (access expr)) : Prop :=
   exists v' acc', occurs ds e v' acc' /\ same_use v acc v' acc'.
 
-(* a constraint statement mentions the signal (v, acc) *)
+(* `var[target] <== rhe` (an Update node): the statement mentions its target, what
+   rhe mentions and what the index expressions of the target mention - NOT `var` as a
+   whole, although the Update node reads it (occ_update) *)
+Definition update_mentions ds (var : vname) (target : list (access expr)) (rhe : expr)
+           (v : vname) (acc : list (access expr)) : Prop :=
+  same_use v acc var target \/ expr_mentions ds rhe v acc \/
+  exists x, In (AIdx x) target /\ expr_mentions ds x v acc.
+
+(* a constraint statement mentions the signal (v, acc).  The lifter builds Update
+   nodes only as right-hand sides of substitutions to an accessed variable; the
+   SCeq clause for an Update says what the code does with such a tree. *)
 Definition stmt_mentions ds (s : stmt) (v : vname) (acc : list (access expr)) : Prop :=
   match s with
-  | SCeq _ l r => expr_mentions ds l v acc \/ expr_mentions ds r v acc
+  | SCeq _ l r =>
+    match r with
+    | EUpdate var target rhe _ => update_mentions ds var target rhe v acc
+    | _ => expr_mentions ds l v acc \/ expr_mentions ds r v acc
+    end
   | SSubst _ w OpCSig rhe _ stype =>
-    expr_mentions ds rhe v acc \/
-    ((exists t, stype = Some t /\ (is_signal t = true \/ is_comp t = true))
-     /\ same_use v acc w (subst_access rhe))
+    match rhe with
+    | EUpdate var target inner _ => update_mentions ds var target inner v acc
+    | _ =>
+      expr_mentions ds rhe v acc \/
+      ((exists t, stype = Some t /\ (is_signal t = true \/ is_comp t = true))
+       /\ same_use v acc w [])
+    end
   | _ => False
   end.
 
